@@ -7,6 +7,8 @@ from ..checklib import Check, MachineryError
 
 SCENARIOS = [
     {"mode": "black", "clean": True, "trim": True, "flags": "create,fix,trim"},
+    # the middle file declares latin-1 and gets a value that latin-1 cannot represent
+    {"mode": "black", "clean": False, "trim": False, "flags": "create,fix", "enc": True},
     {"mode": "cmd", "clean": False, "trim": False, "flags": "create,fix"},
     {"mode": "black", "clean": False, "trim": False, "flags": "create,fix"},
     {"mode": "cmd", "clean": True, "trim": True, "flags": "fix,create,trim"},
@@ -50,15 +52,22 @@ def run():
         chk.spec_violation(res, "mc Rewrite")
     tlc.cleanup(res)
     session_driver.preload()
-    scens = SCENARIOS[:2] if chk.quick else SCENARIOS
+    scens = SCENARIOS[:3] if chk.quick else SCENARIOS
     for scen in scens:
-        evs, new = fr.baseline(scen)
+        evs, new, problems = fr.baseline(scen)
+        for pr in problems:
+            # the run WITHOUT any injected fault already leaves a file that is not complete
+            chk.mismatch("atomic", {"clause": "atomic", "scenario": "%(mode)s clean=%(clean)s trim=%(trim)s" % scen + (" enc" if scen.get("enc") else ""),
+                                    "event": "none", "kind": "none", "file_class": pr["class"]},
+                         {"kind": "fault-plan", "scenario": scen, "plan": None, "problem": pr})
+        if problems:
+            continue
         order = [{"test_a.py": "fa", "test_b.py": "fb", "test_c.py": "fc"}[e["what"][0]] for e in evs if e["ev"] == "open-w"]
         if sorted(order) != sorted(fr.FILES):
             raise MachineryError("baseline run did not write every file: %s" % order)
         plans = fr.plans_for(evs, scen["mode"], not chk.quick)
         results = pool.parallel_map(fr.run_plan, [(scen, None, new)] + [(scen, p, new) for p in plans], maxtasks=20)
-        label = "%(mode)s clean=%(clean)s trim=%(trim)s" % scen
+        label = "%(mode)s clean=%(clean)s trim=%(trim)s" % scen + (" enc" if scen.get("enc") else "")
         ends, ok, viol = validate_traces(chk, [r["trace"] for r in results], order, label)
         if not ok:
             chk.violations.append({"clause": "trace-invariant:" + str(viol), "sig": {"clause": "trace-invariant", "scenario": label},
@@ -99,7 +108,11 @@ def run():
 def replay(chk):
     d = json.loads(open(chk.replay).read())["replay"]
     session_driver.preload()
-    evs, new = fr.baseline(d["scenario"])
+    evs, new, problems = fr.baseline(d["scenario"])
+    if d.get("plan") is None:
+        print(json.dumps(problems, indent=1)[:3000])
+        print("reproduced" if problems else "not reproduced")
+        return 1 if problems else 0
     r = fr.run_plan((d["scenario"], d["plan"], new))
     print(json.dumps({"verdicts": r["verdicts"], "final": r["trace"]["final"], "rc": r["rc"]}, indent=1))
     print("reproduced" if r["verdicts"] else "not reproduced")
